@@ -96,7 +96,7 @@ def c13(cx):
              "(each 'missing expected' error sits at the recovery token's offset, incl. finalize_lexing at end of "
              'input).')
 def c14(cx):
-    lea_glue.apply(cx, ["R-EXPECT-TABLE", "R-ERR-PAIR", "R-EXPECT-SURVIVES"])
+    lea_glue.apply(cx, ["R-EXPECT-TABLE", "R-ERR-PAIR", "R-EXPECT-SURVIVES", "R-FINALIZE-ONCE"])
 
 
 @prop("C03", 'structural rules R-CURSOR-COUNT (every chars.next() of Cursor::advance/advance_by is matched by +1 '
@@ -106,6 +106,8 @@ def c14(cx):
 def c03(cx):
     rules_struct.r_cursor_count(cx, ["dev-none-stable", "rel-none-stable"])
     rules_struct.r_units(cx, ["dev-none-stable", "dev-msep-stable"])
+    rules_struct.r_bom_const(cx, cx.facts("dev-none-stable"))
+    lea_glue.apply(cx, ["R-BOM-ORDER"])
 
 
 @prop("C02", 'structural rules R-RESTORE (rollback restores cursor / stack length and truncates tokens, lines and '
@@ -178,7 +180,7 @@ def c15(cx):
     rules_cfg.r_state_inventory(cx)
     rules_cfg.r_no_absolute(cx)
     rules_cfg.r_lookbehind(cx)
-    lea_glue.apply(cx, ["R-CKPT", "R-DATALINES-START", "R-FRAME-BALANCE"])
+    lea_glue.apply(cx, ["R-CKPT", "R-DATALINES-START", "R-FRAME-BALANCE", "R-PENDING"])
 
 
 @prop("C18", 'R-CFGDIFF-MACROSEP: structural diff of the feature-off and feature-on HIR: feature-only code may '
